@@ -71,3 +71,24 @@ PROPS["C15"] = dict(
                "arrays and JSON get of scalar members are left unconstrained because the property does not state them.",
     design_ref="DESIGN.md section 7, C15",
 )
+
+
+PROPS["C02"] = dict(
+    level="model_checking", exhaustive=True,
+    stages=lambda tier, seed: [mc("matrix", "MC_C02", "MC_C02_%s.cfg" % tier)],
+    rule="finite matrix enumerated by TLC from MC_C02: (A) configured alg x key (absent, or key type x alg attribute "
+         "incl. none and unknown) x {setkey, callback} on checker and builder; (B) every admitted checker "
+         "configuration x 23 header alg spellings (14 names, none/None/NONE, case and padding variants, unknown, "
+         "missing, non-string) x signature class {empty, garbage, valid under the configured key, HMAC under the "
+         "empty key, HMAC under the public PEM, valid under another key} x route {setkey, callback sets key+alg, "
+         "key only, alg only}; (C) builder configurations x routes -> generate. quick uses one key per family and "
+         "9 of 16 configured algs, thorough all. distinct = distinct cells (script hashes).",
+    assumptions=ASSUME_COMMON,
+    level_text="The space is finite and TLC enumerates it completely within the chosen key set; the reference "
+               "outcome is shown to satisfy C02 on every cell, and every cell is executed against libjwt and judged "
+               "by the C02 clauses (accepted/produced only with the pinned algorithm and a key of its family; "
+               "rows outside the setkey table refused).",
+    level_note="One key per type (quick) / per type and size (thorough); signatures are real (independent signer), "
+               "validity by construction. Does not demand that admissible rows succeed (that is C05/C09).",
+    design_ref="DESIGN.md section 7, C02",
+)
